@@ -351,22 +351,26 @@ Definition opt_name (o : option name) : name := match o with Some n => n | None 
 Definition opt_Z (o : option Z) : Z := match o with Some z => z | None => 0 end.
 
 (* the checks against the declaration that carries the number *)
-Definition decl_check (d : xdecl) (fullname tyname : name) (repeated : bool) : list ecls :=
+(* [card]: what happens when the cardinality differs from the declared one.  The Go code reports it
+   at the label keyword of the extension (file.NodeInfo(r.FieldNode(fd.proto).FieldLabel())); an
+   extension written without a label (editions, proto3) has no such node, FieldLabel() is nil and
+   the compile of the file panics (ECompilerPanic) after whatever was reported before *)
+Definition decl_check (card : ecls) (d : xdecl) (fullname tyname : name) (repeated : bool) : list ecls :=
   if xd_reserved d then [EExtDeclReserved]
   else (if name_eqb (opt_name (xd_full_name d)) (dotc :: fullname) then [] else [EExtDeclName])
        ++ (if name_eqb (opt_name (xd_type d)) tyname then [] else [EExtDeclType])
-       ++ (if Bool.eqb (xd_repeated d) repeated then [] else [EExtDeclRepeated]).
+       ++ (if Bool.eqb (xd_repeated d) repeated then [] else [card]).
 
 (* the inner loop over the declarations of one range: the first one with the number decides *)
 (* [miss]: what happens when no declaration carries the number.  The Go code reports it; but it
    looks for the position of the verification option in the file of the EXTENSION
    (findExtensionRangeOptionSpan(fd.ParentFile(), ...)), so when the extendee lives in another file
    the node lookup yields nil and the compile of the file panics (ECompilerPanic) *)
-Fixpoint decl_loop (miss : ecls) (ds : list xdecl) (num : Z) (fullname tyname : name) (repeated : bool) : list ecls :=
+Fixpoint decl_loop (miss card : ecls) (ds : list xdecl) (num : Z) (fullname tyname : name) (repeated : bool) : list ecls :=
   match ds with
   | [] => [miss]
-  | d :: r => if opt_Z (xd_number d) =? num then decl_check d fullname tyname repeated
-              else decl_loop miss r num fullname tyname repeated
+  | d :: r => if opt_Z (xd_number d) =? num then decl_check card d fullname tyname repeated
+              else decl_loop miss card r num fullname tyname repeated
   end.
 
 (* a range asks for declarations when it has some, or says verification = DECLARATION *)
@@ -377,26 +381,26 @@ Definition demands (o : xopts) : bool :=
 (* the loop over md.ExtensionRange as it is: ranges that do not contain the number are skipped;
    a containing range without options, or one that does not ask for declarations, ends the loop;
    after a checked range the loop goes on *)
-Fixpoint go_ext_decl_errs (miss : ecls) (xrs : list xrange) (num : Z) (fullname tyname : name) (repeated : bool) : list ecls :=
+Fixpoint go_ext_decl_errs (miss card : ecls) (xrs : list xrange) (num : Z) (fullname tyname : name) (repeated : bool) : list ecls :=
   match xrs with
   | [] => []
   | x :: r =>
-    if (num <? fst (xr_rng x)) || (num >=? snd (xr_rng x)) then go_ext_decl_errs miss r num fullname tyname repeated
+    if (num <? fst (xr_rng x)) || (num >=? snd (xr_rng x)) then go_ext_decl_errs miss card r num fullname tyname repeated
     else match xr_opts x with
          | None => []
          | Some o =>
-           if demands o then decl_loop miss (xo_decls o) num fullname tyname repeated
-                             ++ go_ext_decl_errs miss r num fullname tyname repeated
+           if demands o then decl_loop miss card (xo_decls o) num fullname tyname repeated
+                             ++ go_ext_decl_errs miss card r num fullname tyname repeated
            else []
          end
   end.
 
 (* protoc: the range that contains the number is the one consulted *)
-Definition spec_ext_decl_errs (miss : ecls) (xrs : list xrange) (num : Z) (fullname tyname : name) (repeated : bool) : list ecls :=
+Definition spec_ext_decl_errs (miss card : ecls) (xrs : list xrange) (num : Z) (fullname tyname : name) (repeated : bool) : list ecls :=
   match find (fun x => in_ho_b num (xr_rng x)) xrs with
   | None => []
   | Some x => match xr_opts x with
-              | Some o => if demands o then decl_loop miss (xo_decls o) num fullname tyname repeated else []
+              | Some o => if demands o then decl_loop miss card (xo_decls o) num fullname tyname repeated else []
               | None => []
               end
   end.
@@ -903,6 +907,14 @@ Definition field_type_name (fd : dfield) : name :=
   | _ => opt_name (df_type_name fd)
   end.
 
+(* r.FieldNode(fd.proto).FieldLabel() != nil for a field that reached ValidateOptions: the descriptor
+   no longer says whether a label keyword was written (fillInMissingLabels made it optional), but
+   validateBasic has passed, so a proto2 field has one, an editions field that is optional has none
+   (the keyword is rejected there), and a proto3 field that is optional has one exactly when it is
+   a proto3-optional field *)
+Definition has_label_keyword (syn : syntax) (fd : dfield) : bool :=
+  negb (is_label (df_label fd) DOptional) || syntax_eqb syn Proto2 || df_p3opt fd.
+
 Definition validate_field_link (L : lctx) (parent : name) (fd : dfield) : list ecls :=
   let syn := dfl_syntax (lc_self L) in
   (match df_type fd, df_type_name fd with
@@ -944,8 +956,9 @@ Definition validate_field_link (L : lctx) (parent : name) (fd : dfield) : list e
      (match df_extendee fd with
       | Some (_ :: x) =>
         let xrs := match assoc_name x (lc_xdecls L) with Some l => l | None => [] end in
-        (if c_spec_extdecl (lc_cfg L) then spec_ext_decl_errs EExtDeclMissing
-         else go_ext_decl_errs (if lc_xself L x || c_extdecl_span_repaired (lc_cfg L) then EExtDeclMissing else ECompilerPanic))
+        (if c_spec_extdecl (lc_cfg L) then spec_ext_decl_errs EExtDeclMissing EExtDeclRepeated
+         else go_ext_decl_errs (if lc_xself L x || c_extdecl_span_repaired (lc_cfg L) then EExtDeclMissing else ECompilerPanic)
+                               (if has_label_keyword syn fd then EExtDeclRepeated else ECompilerPanic))
           xrs (df_number fd) (qual parent (df_name fd)) (field_type_name fd) (is_label (df_label fd) DRepeated)
       | _ => []
       end).
